@@ -244,7 +244,7 @@ static void ProcessFile(char const* FileName, LongWord Offset) {
                 MaxAdr = 0xfffffffful;
                 break;
             case eHexFormatIntel16:
-                MaxAdr = 0xffff0ul + 0xffffu;
+                MaxAdr = 0xffffful; /* segment registers have 16 bits: 20 bit addresses */
                 break;
             case eHexFormatAtmel:
                 MaxAdr = (1 << (AVRLen << 3)) - 1;
